@@ -88,6 +88,7 @@ def case_gr(ctx, rng):
     d, N = inf["d"], inf["N"]
     types = s.particle_type
     ppp = gc.random_mask(rng, d)
+    gc.unwrap_in_place(rng, [s], cell["H"], ppp)       # unwrapped coordinates
     Lmin = float(np.min(np.diag(cell["H"])))
     w = min(float(rng.uniform(0.03, 0.25) * Lmin), Lmin / 4.000001)
     if abs(Lmin / 2 / w - round(Lmin / 2 / w)) < 1e-6:
